@@ -15,6 +15,7 @@ import (
 	"sort"
 	"strconv"
 	"strings"
+	"syscall"
 	"time"
 
 	"verif/harness/drv"
@@ -80,7 +81,20 @@ func (c *Ctx) Pick(q, t int) int {
 	return t
 }
 
-func (c *Ctx) Dist(k string) { c.Res.Distribution[k]++ }
+func (c *Ctx) Dist(k string) { c.Res.Distribution[k]++; beat() }
+
+var lastBeat time.Time
+
+// beat tells the supervising process that this one is still making progress (at most once a second)
+func beat() {
+	if time.Since(lastBeat) < time.Second {
+		return
+	}
+	lastBeat = time.Now()
+	if p := os.Getenv("VERIF_JOURNAL"); p != "" {
+		os.Chtimes(p, lastBeat, lastBeat)
+	}
+}
 
 const maxFailures = 20
 
@@ -94,7 +108,9 @@ func (c *Ctx) RunCases(cases []Case) {
 		}
 		reqs = append(reqs, cs.Spec...)
 	}
+	beat()
 	replies, err := drv.Run(reqs)
+	beat()
 	if err != nil {
 		fmt.Fprintln(os.Stderr, "corr:", err)
 		os.Exit(3)
@@ -249,21 +265,59 @@ func superviseChild(prop, tier string, seed uint64, out string) int {
 	cmd.Stdout = os.Stdout
 	cmd.Stderr = &errb
 	cmd.Env = append(os.Environ(), "VERIF_JOURNAL="+journal, "GOTRACEBACK=all")
-	err := cmd.Run()
+	// watchdog: a child whose journal has not moved for a long time is stuck inside the case it journalled last
+	// (a deadlock in the library, typically); it is asked for a goroutine dump (SIGQUIT) and reported like a crash
+	stall := 300 * time.Second
+	if tier == "thorough" {
+		stall = 1500 * time.Second
+	}
+	if v, e := strconv.Atoi(os.Getenv("VERIF_STALL")); e == nil && v > 0 {
+		stall = time.Duration(v) * time.Second
+	}
+	hung := false
+	if e := cmd.Start(); e != nil {
+		fmt.Fprintln(os.Stderr, "corr: cannot start child:", e)
+		return 3
+	}
+	done := make(chan error, 1)
+	go func() { done <- cmd.Wait() }()
+	var err error
+	last := time.Now()
+wait:
+	for {
+		select {
+		case err = <-done:
+			break wait
+		case <-time.After(2 * time.Second):
+			if fi, e := os.Stat(journal); e == nil && fi.ModTime().After(last) {
+				last = fi.ModTime()
+			}
+			if time.Since(last) > stall && !hung {
+				hung = true
+				cmd.Process.Signal(syscall.SIGQUIT)
+				go func() { time.Sleep(10 * time.Second); cmd.Process.Kill() }()
+			}
+		}
+	}
 	os.Stderr.Write(tail(errb.Bytes(), 4000))
 	if err == nil {
 		return 0
 	}
-	if ee, ok := err.(*exec.ExitError); ok && (ee.ExitCode() == 2 || ee.ExitCode() == 3) && !bytes.Contains(errb.Bytes(), []byte("goroutine ")) {
+	if ee, ok := err.(*exec.ExitError); ok && !hung && (ee.ExitCode() == 2 || ee.ExitCode() == 3) && !bytes.Contains(errb.Bytes(), []byte("goroutine ")) {
 		return ee.ExitCode() // usage / driver errors of the harness itself
 	}
 	inflight, _ := os.ReadFile(journal)
 	trace := string(head(errb.Bytes(), 3000))
-	res := &Result{Property: prop, Tier: tier, Seed: seed, Rule: rules[prop], Distribution: map[string]int{"crash": 1},
-		Mismatches: []Failure{}, Samples: []interface{}{map[string]interface{}{"case": string(inflight), "tag": "crash"}},
+	what, kind := "the process running the library died while: ", "crash"
+	if hung {
+		what, kind = fmt.Sprintf("the process running the library made no progress for %v (goroutine dump attached) while: ", stall), "hang"
+		trace = string(head(stuckGoroutines(errb.Bytes()), 6000))
+	}
+	res := &Result{Property: prop, Tier: tier, Seed: seed, Rule: rules[prop], Distribution: map[string]int{kind: 1},
+		Mismatches: []Failure{}, Samples: []interface{}{map[string]interface{}{"case": string(inflight), "tag": kind}},
 		Evaluations: 1, Distinct: 0,
-		SpecFailures: []Failure{{Kind: "crash", Desc: "the process running the library died while: " + string(inflight), Impl: trace,
-			Replay: map[string]interface{}{"op": "crash", "in_flight": string(inflight), "replay_cmd": fmt.Sprintf("harness/bin/corr -inproc -prop %s -tier %s -seed %d", prop, tier, seed)}}}}
+		SpecFailures: []Failure{{Kind: kind, Desc: what + string(inflight), Impl: trace,
+			Replay: map[string]interface{}{"op": kind, "in_flight": string(inflight), "replay_cmd": fmt.Sprintf("harness/bin/corr -inproc -prop %s -tier %s -seed %d", prop, tier, seed)}}}}
 	b, _ := json.MarshalIndent(res, "", " ")
 	if out != "" {
 		os.WriteFile(out, b, 0o644)
@@ -272,6 +326,20 @@ func superviseChild(prop, tier string, seed uint64, out string) int {
 	}
 	fmt.Fprintf(os.Stderr, "corr %s: the child process crashed (%v)\n", prop, err)
 	return 0
+}
+
+// stuckGoroutines keeps, from a SIGQUIT dump, the goroutines that are inside the library (not the harness' own)
+func stuckGoroutines(dump []byte) []byte {
+	var keep [][]byte
+	for _, g := range bytes.Split(dump, []byte("\n\n")) {
+		if bytes.Contains(g, []byte("fluffle/goirc/")) {
+			keep = append(keep, g)
+		}
+	}
+	if len(keep) == 0 {
+		return dump
+	}
+	return bytes.Join(keep, []byte("\n\n"))
 }
 
 func head(b []byte, n int) []byte {
